@@ -38,6 +38,7 @@ COMPONENTS_REAL = [
     "pyproj, pickle, copy, dask.base.tokenize, the CPython allocator and garbage collector",
 ]
 COMPONENTS_STUB = ["thread scheduler for racing constructions (ThreadSim)", "gc timing (disabled, collected only at recorded steps)"]
+HAZARD_PROBES = ['id_reuse_observed', 'orphan_pyproj_object_died', 'race_both_threads_missed_cache', 'transformer_requested_while_dead_address_available']
 ASSUMPTIONS = [
     "reference transformers are built by pyproj from EPSG codes / the custom definitions (1 m / 1e-5 degree tolerance, confirmed against a transformer built from the two CRSs' own WKT before reporting)",
     "object-identity reuse depends on the allocator: provoked by churn and counted (probe id_reuse_observed), not assumed",
@@ -164,6 +165,7 @@ def generate(rng: random.Random, tier: str) -> dict:
         crs_slots.append(n_pool)
         n_pool += 1
 
+    focus = rng.sample(COMP_KINDS, rng.choice([1, 1, 2]))
     nsteps = rng.randint(3, 25 if tier == "thorough" else 18)
     style = rng.choice(["mixed", "mixed", "crs-heavy", "composite-heavy", "gadget", "gadget", "flood"])
     add_crs(_draw_crs_spec(rng))
@@ -213,7 +215,8 @@ def generate(rng: random.Random, tier: str) -> dict:
         if r < (0.45 if style == "crs-heavy" else 0.25):
             add_crs(_draw_crs_spec(rng))
         elif r < (0.55 if style != "composite-heavy" else 0.75):
-            kind = rng.choice(COMP_KINDS)
+            # pair laws live within a kind: stay with the family already in the pool most of the time
+            kind = focus[rng.randrange(len(focus))] if rng.random() < 0.75 else rng.choice(COMP_KINDS)
             ref = rng.choice(crs_slots) if (crs_slots and kind in NEEDS_CRS and rng.random() < 0.9) else None
             steps.append(["comp", kind, rng.randrange(17), ref])
             val_slots.append(n_pool)
@@ -242,7 +245,11 @@ def generate(rng: random.Random, tier: str) -> dict:
                 specs = [sp for _ in range(T)]
             else:
                 specs = [_draw_crs_spec(rng)[1:] for _ in range(T)]
-            steps.append(["race", specs])
+            tgt = [c_ for c_ in crs_slots]
+            if tgt and rng.random() < 0.5 and all(sp[0] in TRANSFORM_CODES and sp[1] != "proj4" for sp in specs):
+                steps.append(["race", specs, rng.choice(tgt), rng.random() < 0.6])  # threads also request a transformer
+            else:
+                steps.append(["race", specs])
             crs_slots.extend(range(n_pool, n_pool + T))
             n_pool += T
     cfg = {"policy": draw_policy(rng, groups=None, horizon=400)}
@@ -500,6 +507,7 @@ class History:
             "gadget_histories": 0,
             "pairs_checked": 0,
             "flood_constructions": 0,
+            "racing_transformer_requests": 0,
         }
         self.steps_done = 0
         self.switches = 0
@@ -762,7 +770,7 @@ class History:
             elif op == "flood":
                 self.flood(int(step[1]), self.pool.get(step[2]), bool(step[3]))
             elif op == "race":
-                self.race(step[1])
+                self.race(step[1], self.pool.get(step[2]) if len(step) > 2 else None, bool(step[3]) if len(step) > 3 else True)
             else:
                 raise HarnessError(f"unknown step {op}")
 
@@ -791,16 +799,29 @@ class History:
         self.ch.count("flood", n)
         self.probes["flood_constructions"] += n
 
-    def race(self, specs: List[List[Any]]) -> None:
+    def race(self, specs: List[List[Any]], other: Optional[Dict[str, Any]] = None, xy: bool = True) -> None:
         import cachetools._cached as CC
         import odc.geo.crs as C
+
+        if other is not None and (other["kind"] != "crs" or other.get("code") not in REF["probe_xy"]):
+            other = None
+        tr_out: Dict[str, Any] = {}
+
+        def work(name: str, code: Any, route: str) -> Any:
+            c = build_crs(code, route)
+            if other is not None and code in REF["probe_xy"]:
+                px, py = REF["probe_xy"][code]
+                if not xy and _axis_swapped(code):
+                    px, py = py, px
+                tr_out[name] = (code, px, py, c.transformer_to_crs(other["value"], always_xy=xy)(px, py))
+            return c
 
         kernel = K.Kernel(trace_files=(C.__file__, CC.__file__))
         K.activate(kernel)
         results: Dict[str, Any] = {}
         try:
             for i, (code, route) in enumerate(specs):
-                kernel.spawn(f"R{i}", lambda code=code, route=route: build_crs(code, route))
+                kernel.spawn(f"R{i}", lambda i=i, code=code, route=route: work(f"R{i}", code, route))
             before = 0
             try:
                 done = K.run_threads(kernel, self.ch, step_budget=20000, log=None)
@@ -819,6 +840,17 @@ class History:
         finally:
             kernel.shutdown()
             K.activate(None)
+        if tr_out:
+            import numpy as np
+
+            self.probes["racing_transformer_requests"] += len(tr_out)
+            for name in sorted(tr_out):
+                code, px, py, got = tr_out[name]
+                want = _ref_transform(code, other["code"], xy, px, py)
+                tol = 1e-5 if REF["specs"][other["code"]]["pp"].is_geographic else 1.0
+                self.probes["transformer_checks"] += 1
+                if not all(np.isfinite(g) and abs(g - w) <= tol for g, w in zip(got, want)):
+                    self.report("O19.5", "transformer-converts-between-other-systems", {"src": [code, "racing construction"], "dst": other.get("spec"), "always_xy": xy, "got": [float(g) for g in got], "want": [float(w) for w in want]})
         lk = getattr(C._make_crs, "cache_lock", None)
         if isinstance(lk, K.CoopLock):
             self.probes["race_lock_contended"] += int(lk.contended > self._lock_contended_seen)
@@ -907,6 +939,11 @@ def ensure_refs(record: dict) -> None:
             code_of[n] = code_of.get(st[1])
             n += 1
         elif op == "race":
+            if len(st) > 2:
+                b = code_of.get(st[2])
+                if b is not None:
+                    for sp in st[1]:
+                        need.add((sp[0], b, bool(st[3])))
             for sp in st[1]:
                 code_of[n] = sp[0]
                 n += 1
@@ -1038,6 +1075,10 @@ def _drop_step(steps: List[List[Any]], i: int) -> Optional[List[List[Any]]]:
             s[2] = ren(s[2])
             if s[2] == -1:
                 continue
+        elif s[0] == "race" and len(s) > 2:
+            s[2] = ren(s[2])
+            if s[2] == -1:
+                s = s[:2]
         out.append(s)
     return out
 
